@@ -104,9 +104,9 @@ def run(ck):
     ck.extra["traces_validated_against_impl"] = len(codes)
     # ---------------- vacancy-mediated -------------------------------------------------------------------
     # rect / ortho / tet / hcp have several inequivalent exchange (omega2) classes
-    names = ["rect", "square", "ortho", "honeycomb", "sq2w", "tria", "sc"] + ([] if ck.quick else ["hcp", "fcc", "bcc", "b2", "re3", "tet", "hcp-nonideal"])
+    names = ["rect", "rect-polar2d", "square", "ortho", "honeycomb", "sq2w", "tria", "oblique1", "sc"] + ([] if ck.quick else ["oblique2d", "tria-disp", "polar", "mono", "hcp", "fcc", "bcc", "b2", "re3", "tet", "hcp-nonideal"])
     nvm = 0; nreal = 0
-    for rep in range(ck.n(6, 16)):
+    for rep in range(ck.n(9, 20)):
         nm = names[rep % len(names)]
         crys, chem = gen.named(nm)
         net = gen.percolating_network(crys, chem, rng, maxshell=1, maxjumps=30)
@@ -119,7 +119,7 @@ def run(ck):
         # strong-exchange regime (the default then picks the large-omega2 algorithm); only for crystals outside the known
         # large-omega2 failure regimes of C08 (one Wyckoff set, no origin-state vector basis); inequivalent exchange
         # classes get rates spread over up to 1.5 decades
-        plain = len(sl) == 1 and len(d.OSindices) == 0
+        plain = len(sl) == 1    # origin-state crystals behave like plain ones since fix b4a4433
         strong = plain and (rep % 2 == 0 or rng.random() < 0.3)
         if strong:
             th["eneT2"] = th["eneT2"] - rng.uniform(18, 24)
